@@ -79,6 +79,19 @@ impl<'a> UnusedLiteralVisitor<'a> {
             .map(|pos| position.end_offset + pos + 1)
             .unwrap_or(src.len());
 
+        // If there is other code on the line(s) of the literal, only
+        // remove the literal itself and the whitespace after it.
+        if !src[line_start..position.start_offset].trim().is_empty()
+            || !src[position.end_offset..line_end].trim().is_empty()
+        {
+            let rest = &src[position.end_offset..line_end];
+            let spaces = rest.len() - rest.trim_start_matches([' ', '\t']).len();
+            let mut narrow = position.clone();
+            narrow.end_offset += spaces;
+            narrow.end_column += spaces;
+            return narrow;
+        }
+
         // Create a new position spanning the entire line
         let mut line_position = position.clone();
         line_position.start_offset = line_start;
